@@ -64,6 +64,12 @@ def _h(*parts):
 # --------------------------------------------------------------------------- messages (built with the reference only)
 
 
+def _count(salt, big):
+    """Entries of an inv/addr message: 1 or 2, and for one message in eight one of the protocol's boundary counts."""
+    sel = (salt >> 8) % (8 * len(big))
+    return big[sel] if sel < len(big) else 1 + (salt & 1)
+
+
 def build_message(kind, peer, idx, salt):
     """(command, payload) of the idx-th message of `peer`; content is unique per (peer, idx) except ping/verack."""
     tag = peer * 16 + idx
@@ -81,10 +87,10 @@ def build_message(kind, peer, idx, salt):
         )
         return b"version", pl
     if kind == "inv":
-        n = 1 + (salt & 1)
+        n = _count(salt, (253, 1000))
         return b"inv", W.inv_payload([(1 + ((salt >> 1) + j) % 2, _h("inv", peer, idx, salt, j)) for j in range(n)])
     if kind == "addr":
-        n = 1 + (salt & 1)
+        n = _count(salt, (1000, 999, 253, 0))  # 1000 is the most one addr message may carry
         ents = [(1700000000 + tag + j, 1, _h("addr", peer, idx, salt, j)[:16], 8333 + tag + j) for j in range(n)]
         return b"addr", W.addr_payload(ents)
     if kind == "unknown":
@@ -94,6 +100,22 @@ def build_message(kind, peer, idx, salt):
     raise ValueError(kind)
 
 
+class _Any:
+    """Compares equal to everything (a payload the oracle does not pin down)."""
+
+    def __eq__(self, other):
+        return True
+
+    def __ne__(self, other):
+        return False
+
+    def __repr__(self):
+        return "<any payload>"
+
+
+ANY = _Any()
+
+
 class Plan:
     """Everything about one assignment that does not depend on the schedule."""
 
@@ -101,6 +123,7 @@ class Plan:
         self.peers = peers
         self.n = len(peers)
         self.skip = None
+        self.parse_raises = None
         probe = p2p.Node()
         self.handled_cmds = {b"version", b"ping"} | {c for c in probe._registered_commands_to_handle if isinstance(c, bytes)}
         self.wire = []  # per peer: serialised messages
@@ -115,8 +138,10 @@ class Plan:
                 wire.append(W.message(MAGIC, cmd, payload))
                 parsed = attempt(p2p.parse_payload, cmd, payload)
                 if raised(parsed):
-                    self.skip = f"parse_payload raises for {kind}: {parsed!r}"
-                    parsed = None
+                    # the message is well formed (built by the reference): it must still be handled or queued once; what
+                    # the queue entry's payload looks like is then left open (payload parsing is C17's subject)
+                    self.parse_raises = f"parse_payload raises for {kind}: {parsed!r}"
+                    parsed = ANY
                 hd.append(cmd in self.handled_cmds)
                 if cmd == b"ping":
                     reply.append((b"pong", payload))
@@ -383,6 +408,12 @@ def _case_labels(peers):
     out = [f"case:peers-{len(peers)}", "case:msgs-" + "x".join(str(len(m)) for m in peers)]
     for k in sorted({k for m in peers for k, _ in m}):
         out.append("kind:" + k)
+    for m in peers:
+        for k, salt in m:
+            if k in ("inv", "addr") and (salt >> 8) % (8 * (4 if k == "addr" else 2)) < (4 if k == "addr" else 2):
+                out.append(f"nt:case/{k}-boundary-count")
+                if k == "addr" and (salt >> 8) % 32 == 0:
+                    out.append("nt:case/addr-1000-entries")
     return out
 
 
@@ -704,7 +735,8 @@ def targets(tier):
             check_schedule,
             strategy=lambda tier: sampled_cases(),
             budget={"quick": 4000, "thorough": 50000},
-            required=[NT, "nt:exec/library-logging-at-its-own-level", "case:peers-2", "case:peers-3"] + ["kind:" + k for k in KINDS],
+            required=[NT, "nt:exec/library-logging-at-its-own-level", "case:peers-2", "case:peers-3", "nt:case/addr-boundary-count", "nt:case/inv-boundary-count",
+                      "nt:case/addr-1000-entries"] + ["kind:" + k for k in KINDS],
         ),
         Target(
             "walks-3x2",
